@@ -127,8 +127,11 @@ def run(ck):
     ck.cov["rule"] = ("seeded generators (random.Random(VERIF_SEED)): (a) structured drop-point histories (a random sample, not an enumeration) - 1-7 requests drawn over every status (answered, "
                       "cancelled after/before being written, no-reply, unsent, live), connection lost before / between / inside response frames, 0-5 consecutive "
                       "failed attempts with cancels, new requests and close during back-off, reconnect, stale bytes, 1-3 rounds; (b) on-line state-aware "
-                      "generator over the whole event alphabet with about 10% late/disabled events; (c) every enabled sequence up to the stated depth over "
-                      "13 events (and, thorough, over an alphabet where one reply arrives in two pieces). Retry policies: constant, Twisted backoffPolicy "
+                      "generator over the whole event alphabet with about 10% late/disabled events (disabled ones - no object to act on - exercise only the "
+                      "model's no-op); (c) every enabled sequence up to the stated depth over 13 events, over 12 events with three fixed tables of user "
+                      "callbacks (and, thorough, over an alphabet where one reply arrives in two pieces); (d) histories with connect() completing "
+                      "synchronously incl. a fixed corpus (close during back-off after a synchronous failure), with user callbacks in tail position, and "
+                      "with user callbacks/errbacks calling cancel/makeRequest/disconnect/close from inside _sendQueued's and close()'s loops. Retry policies: constant, Twisted backoffPolicy "
                       "(default and afkak's parameters, no jitter), two non-monotone random tables - the delay passed to callLater is compared bit for bit "
                       "with policy(k). A case is non-trivial if a connection was lost with a request outstanding, a connection attempt failed, or close() "
                       "failed a pending request; distinct = distinct canonical case lines.")
@@ -142,7 +145,7 @@ def run(ck):
         "events the environment cannot produce (no attempt / transport / Deferred to act on) cannot be applied to the implementation; a timer event with no timer armed is applied as an hour of virtual time passing",
         "C10_close and the model fail the pending requests newest first; the property does not fix the order: the driver puts the ClientError firings of one close() into that order before comparing and the monitor demands only the SET",
         "loseConnection() is only a REQUEST in the simulated transport: the loss is the separate event `lost`, so the window between the two is explored",
-        "extraction: ExtrOcamlBasic only; sample re-evaluated in Coq by vm_compute (the exhaustive enumeration is compared against the extracted runner only)",
+        "extraction: ExtrOcamlBasic only; the comparison is made against the extracted runner; a sample of every part, including about 195 lines per enumerated alphabet and about 30 of the user-callback histories, is re-evaluated inside Coq by vm_compute (not the tail-position and synchronous-connect comparisons, whose model traces are post-processed by the driver)",
     ]
     ck.cov["trusted_base"] += ["correspondence harness harness/props/C10.py + props/brokerclient_lib.py + drv_brokerclient.py + simnet.py + vlib.py",
                                "extracted OCaml runner (ExtrOcamlBasic) cross-checked by vm_compute sample"]
